@@ -184,7 +184,7 @@ def c10(ctx):
     ctx.assumptions.append("relational check: a group of real executions of one program on one content must agree; the harness's scripted store is trusted to implement the four reply shapes")
     store.store_check(ctx, "C10")
     return ctx.finish("model_checking", "one evaluation = one real run of a program under one store behaviour (reply shape per call from Machine.tla / StoreEnv.tla, "
-                      "plus exact/sparse/superset/static); a group (program x content) is non-trivial when some run makes >= 2 store calls")
+                      "plus exact/sparse/superset/static); a group (program x content) is non-trivial when some run makes >= 2 store calls; plus every member of StoreFam.tla (all sequences of up to three sends / saves over two assets on the same accounts, with and without a balance() origin, over contents that lack entries or hold one for @world) under the exact, sparse, whole-content and static stores")
 
 
 @check("C12")
@@ -316,7 +316,7 @@ def c15(ctx):
     front.c15(ctx)
     return ctx.finish("model_checking", "trees from a grammar-complete generator (every alternative of every rule, typed or not, exotic lexemes) printed by Syntax.tla under "
                       "seeded layouts at every gap (3 seeds per tree) and under every layout of the alphabet at every single gap of small trees (exhaustive); "
-                      "one evaluation = one printed text parsed by the real parser and compared node by node; non-trivial = >= 10 nodes with ranges")
+                      "one evaluation = one printed text parsed by the real parser and compared node by node; non-trivial = >= 10 nodes with ranges; plus every text of LexFam.tla (up to 3 / 4 pieces of a 28-piece character alphabet): token list of the real lexer against Lexer!Lex")
 
 
 @check("C16")
@@ -327,7 +327,7 @@ def c16(ctx):
     return ctx.finish("model_checking", "typed programs from the generator (all six types, variables in every position, bounded overdraft and caps under send-all), "
                       "two layouts each, and their name edits (delete / duplicate / rename a declaration, rename a use); Static!Valid decides which are asserted "
                       "error-free; the multiset of unbound / duplicate / unused diagnostics must equal Static!NameDiagSet at the exact token ranges; "
-                      "non-trivial = a case with at least one expected name diagnostic")
+                      "non-trivial = a case with at least one expected name diagnostic; plus the exhaustive ShapeFam.tla families (every source tree of depth <= 2, optionally under one more cap, in a send and a send-all; every subset / order of two declarations against every small expression over the two names; a variable in every position; origins before / after the declarations they use)")
 
 
 @check("C17")
@@ -336,7 +336,7 @@ def c17(ctx):
     front.c17(ctx)
     return ctx.finish("model_checking", "programs broken in 0-2 places (literal of another type, undeclared or mis-declared variable, wrong arity, unknown or misplaced function, "
                       "allotment / unbounded source under send-all), checked by analysis.CheckSource and executed with values of the declared types; "
-                      "non-trivial = the checker reports no error (the implication's antecedent holds)")
+                      "non-trivial = the checker reports no error (the implication's antecedent holds); plus the exhaustive ShapeFam.tla families, checked and executed with inputs of the declared types")
 
 
 @check("C14")
@@ -349,7 +349,7 @@ def c14(ctx):
     front.c15(ctx, cfg="FrontTrace_C14.cfg", prop="C14")   # valid scripts under every layout: no panic, zero errors
     return ctx.finish("exploration", "documents of Edit.tla: every prefix at every character, every single token deletion / duplication / swap / replacement / insertion from an "
                       "alphabet of tokens and garbage (thorough: richer alphabet and all pairs of whole-token edits on small seeds), printed with two line layouts; "
-                      "non-trivial = a document outside the language; plus the texts of the Syntax machine")
+                      "non-trivial = a document outside the language; plus the texts of the Syntax machine; the verdict of every document comes from Lexer!Lex of its characters and Grammar!Accepts of the token kinds; plus every text of LexFam.tla through the real lexer and parser (rejected characters, accepted <=> no error)")
 
 
 def accept_trees(ctx):
@@ -375,7 +375,7 @@ def c19(ctx):
     front.c19(ctx)
     return ctx.finish("model_checking", "exhaustive: every well-formed history of the bound of Lsp_<tier>.cfg (2 URIs x 3 texts x 2 probe positions, single and double content changes) "
                       "plus random histories of length 12 over 3 URIs; navigation: every cursor position of generated scripts and their name edits; "
-                      "one evaluation = one reply compared; non-trivial = a query on an opened document resp. a position with a hover")
+                      "one evaluation = one reply compared; non-trivial = a query on an opened document resp. a position with a hover; navigation also on the ShapeFam.tla family of a variable in every syntactic position; transport: every cut schedule of Wire.tla (up to 2 / 3 cuts of a three-message request stream) replayed against the real binary")
 
 
 @check("C20")
